@@ -1215,6 +1215,21 @@ func (self *LockManager) ProcessRecoverLockData(lock *Lock) {
 		return
 	}
 	currentData := lock.data.currentData
+	if currentData != nil && self.currentData == currentData {
+		// nothing has replaced the value since this lock's own operation: put back exactly what was saved
+		// (the inverse operations below are only exact when the previous value had the operation's own type)
+		if lock.data.recoverData == nil {
+			self.currentData = NewLockManagerDataUnsetData(false)
+		} else {
+			self.currentData = lock.data.recoverData
+			self.currentData.isAof = false
+		}
+		lock.data.commandDatas = nil
+		if lock.data.ProcessAckClear() {
+			lock.data = nil
+		}
+		return
+	}
 	if currentData == nil || self.currentData == nil || (self.currentData.commandType != protocol.LOCK_DATA_COMMAND_TYPE_UNSET && currentData.commandType != self.currentData.commandType) {
 		lock.data.commandDatas = nil
 		if lock.data.ProcessAckClear() {
